@@ -63,8 +63,17 @@ impl Reorg {
 
     let mut wtx = index.begin_write()?;
 
-    let oldest_savepoint =
-      wtx.get_persistent_savepoint(wtx.list_persistent_savepoints()?.min().unwrap())?;
+    // after a crash between a commit and the creation of its savepoint there
+    // may be no savepoint to roll back to
+    let Some(oldest_savepoint) = wtx.list_persistent_savepoints()?.min() else {
+      wtx.abort()?;
+      index
+        .unrecoverably_reorged
+        .store(true, atomic::Ordering::Relaxed);
+      return Err(anyhow!(reorg::Error::Unrecoverable));
+    };
+
+    let oldest_savepoint = wtx.get_persistent_savepoint(oldest_savepoint)?;
 
     #[cfg(feature = "verif")]
     crate::verif::crash_point("reorg.before_restore");
